@@ -1191,6 +1191,7 @@ class PyCdlib:
                         # This is a relocated directory, so the directory we
                         # are walking is the one that collects them.
                         self._rr_moved_record = dir_record
+                        dir_record.is_rr_moved_dir = True
 
                     if new_record.is_dotdot() and new_record.rock_ridge is not None and new_record.rock_ridge.parent_link_record_exists():
                         # Make sure to mark a dotdot record with a parent link
@@ -1925,6 +1926,7 @@ class PyCdlib:
 
         rec.set_ptr(ptr)
 
+        rec.is_rr_moved_dir = True
         self._rr_moved_record = rec
 
         return num_bytes_to_add
